@@ -9,6 +9,7 @@ import (
 	"go/token"
 	"os"
 	"regexp"
+	"sort"
 	"path/filepath"
 	"strconv"
 	"strings"
@@ -267,6 +268,10 @@ func genPow() {
 	g.def("workerSkeletonV2", "List String", syncSkeleton(p2, "Worker.worker"))
 	g.def("doneAccessesV1", "List String", identUses(p1, []string{"Worker.Mine", "Worker.worker"}, "done"))
 	g.def("doneAccessesV2", "List String", identUses(p2, []string{"Worker.Mine", "Worker.worker"}, "done"))
+	g.def("capturesV1", "List String", closureCaptures(p1, "Worker.Mine"))
+	g.def("capturesV2", "List String", closureCaptures(p2, "Worker.Mine"))
+	g.def("counterAccessesV1", "List String", identUses(p1, []string{"Worker.Mine", "Worker.worker"}, "counter"))
+	g.def("counterAccessesV2", "List String", identUses(p2, []string{"Worker.Mine", "Worker.worker"}, "counter"))
 	g.src(p1, "Score", "trailingZeros", "encodeNonce", "New", "Worker.Mine", "Worker.worker", "checkStateTrits")
 	g.src(p2, "Score", "difficulty", "encodeNonce", "toInt", "tritToUint", "hexToInt", "New", "Worker.Mine",
 		"sufficientTrailingZeros", "targetHash", "Worker.worker", "checkStateTrits", "stateToInt")
@@ -625,7 +630,7 @@ func identUses(p *pkg, fns []string, name string) string {
 					case *ast.ValueSpec:
 						ctx = "var " + normWS(p.src(y))
 					case *ast.Field:
-						ctx = "param " + normWS(p.src(y))
+						ctx = "param " + normWS(p.src(y.Type))
 					}
 				}
 				if strings.Contains(ctx, "verifEvent") {
@@ -640,4 +645,185 @@ func identUses(p *pkg, fns []string, name string) string {
 		})
 	}
 	return "[" + strings.Join(out, ", ") + "]"
+}
+
+// closureCaptures lists, for every `go func(){…}()` of a function (numbered in source order), the variables
+// of the enclosing function the closure refers to and how (read / write / addr), and every assignment the
+// enclosing function itself makes to a variable some closure captures, from the spawn of that closure on (from the
+// start of the outermost loop around the go statement when there is one).
+// Purely syntactic: names declared inside a closure are closure-local.
+func closureCaptures(p *pkg, fn string) string {
+	fd := p.method(fn)
+	outer := map[string]bool{}
+	if fd.Recv != nil {
+		for _, f := range fd.Recv.List {
+			for _, n := range f.Names {
+				outer[n.Name] = true
+			}
+		}
+	}
+	for _, f := range fd.Type.Params.List {
+		for _, n := range f.Names {
+			outer[n.Name] = true
+		}
+	}
+	var lits []*ast.FuncLit
+	var litFrom []token.Pos // from where on the enclosing function runs concurrently with the closure
+	{
+		var stack []ast.Node
+		ast.Inspect(fd.Body, func(n ast.Node) bool {
+			if n == nil {
+				stack = stack[:len(stack)-1]
+				return true
+			}
+			if g, ok := n.(*ast.GoStmt); ok {
+				if fl, ok := g.Call.Fun.(*ast.FuncLit); ok {
+					from := g.Pos()
+					for _, a := range stack { // outermost enclosing loop: later iterations run after the spawn
+						switch a.(type) {
+						case *ast.ForStmt, *ast.RangeStmt:
+							if a.Pos() < from {
+								from = a.Pos()
+							}
+						}
+					}
+					lits = append(lits, fl)
+					litFrom = append(litFrom, from)
+				}
+			}
+			stack = append(stack, n)
+			return true
+		})
+	}
+	inLit := func(pos token.Pos) bool {
+		for _, l := range lits {
+			if l.Pos() <= pos && pos < l.End() {
+				return true
+			}
+		}
+		return false
+	}
+	declared := func(root ast.Node, skipLits bool) map[string]bool {
+		d := map[string]bool{}
+		ast.Inspect(root, func(n ast.Node) bool {
+			if n == nil {
+				return true
+			}
+			if skipLits && n != root && inLit(n.Pos()) {
+				if _, ok := n.(*ast.FuncLit); ok {
+					return false
+				}
+			}
+			switch x := n.(type) {
+			case *ast.AssignStmt:
+				if x.Tok == token.DEFINE {
+					for _, l := range x.Lhs {
+						if id, ok := l.(*ast.Ident); ok {
+							d[id.Name] = true
+						}
+					}
+				}
+			case *ast.ValueSpec:
+				for _, id := range x.Names {
+					d[id.Name] = true
+				}
+			case *ast.RangeStmt:
+				if x.Tok == token.DEFINE {
+					for _, e := range []ast.Expr{x.Key, x.Value} {
+						if id, ok := e.(*ast.Ident); ok {
+							d[id.Name] = true
+						}
+					}
+				}
+			}
+			return true
+		})
+		return d
+	}
+	for k := range declared(fd.Body, true) {
+		outer[k] = true
+	}
+	set := map[string]bool{}
+	captured := map[string]token.Pos{}
+	for i, l := range lits {
+		local := declared(l.Body, false)
+		var stack []ast.Node
+		ast.Inspect(l.Body, func(n ast.Node) bool {
+			if n == nil {
+				stack = stack[:len(stack)-1]
+				return true
+			}
+			if id, ok := n.(*ast.Ident); ok && outer[id.Name] && !local[id.Name] {
+				kind := "read"
+				if len(stack) > 0 {
+					switch y := stack[len(stack)-1].(type) {
+					case *ast.UnaryExpr:
+						if y.Op == token.AND {
+							kind = "addr"
+						}
+					case *ast.AssignStmt:
+						for _, lh := range y.Lhs {
+							if lh == ast.Expr(id) {
+								kind = "write"
+							}
+						}
+					case *ast.IncDecStmt:
+						kind = "write"
+					case *ast.SelectorExpr:
+						if y.Sel == id {
+							kind = ""
+						}
+					case *ast.KeyValueExpr:
+						if y.Key == ast.Expr(id) {
+							kind = ""
+						}
+					}
+				}
+				if kind != "" {
+					set[fmt.Sprintf("go%d %s %s", i+1, kind, id.Name)] = true
+					if p0, ok := captured[id.Name]; !ok || litFrom[i] < p0 {
+						captured[id.Name] = litFrom[i]
+					}
+				}
+			}
+			stack = append(stack, n)
+			return true
+		})
+	}
+	ast.Inspect(fd.Body, func(n ast.Node) bool {
+		if n == nil {
+			return true
+		}
+		if _, ok := n.(*ast.FuncLit); ok && inLit(n.Pos()) {
+			return false
+		}
+		conc := func(id *ast.Ident) bool { p0, ok := captured[id.Name]; return ok && id.Pos() >= p0 }
+		switch x := n.(type) {
+		case *ast.AssignStmt:
+			for _, lh := range x.Lhs {
+				if id, ok := lh.(*ast.Ident); ok && conc(id) {
+					k := "write"
+					if x.Tok == token.DEFINE {
+						k = "define"
+					}
+					set[fmt.Sprintf("main-after-go %s %s", k, id.Name)] = true
+				}
+			}
+		case *ast.IncDecStmt:
+			if id, ok := x.X.(*ast.Ident); ok && conc(id) {
+				set["main-after-go write "+id.Name] = true
+			}
+		case *ast.UnaryExpr:
+			if id, ok := x.X.(*ast.Ident); ok && x.Op == token.AND && conc(id) {
+				set["main-after-go addr "+id.Name] = true
+			}
+		}
+		return true
+	})
+	var keys []string
+	for k := range set {
+		keys = append(keys, leanString(k))
+	}
+	sort.Strings(keys)
+	return "[" + strings.Join(keys, ", ") + "]"
 }
